@@ -38,7 +38,19 @@ func main() {
 	explain := flag.Bool("explain", false, "print every rule instance")
 	replay := flag.String("replay", "", "replay file: re-evaluate that one obligation on the current tree")
 	list := flag.Bool("list", false, "list registered properties")
+	sym := flag.String("sym", "", "developer aid: print the abstract interpretation of pkg:Func or pkg:Type.Method")
+	symFail := flag.Bool("symfail", false, "with -sym: explore read-failure outcomes")
 	flag.Parse()
+
+	if *sym != "" {
+		p, err := Load(*repo, "")
+		if err != nil {
+			fmt.Println(err)
+			os.Exit(2)
+		}
+		debugSym(p, *sym, *symFail)
+		return
+	}
 
 	if *list {
 		var ids []string
